@@ -11,6 +11,7 @@ fn parse_content_line(
     let mut nodes = Vec::new();
     if let Some((text_part, divert_part)) = split_inline_divert(content) {
         nodes.extend(tokenize_inline_content(text_part)?);
+        end_text_before_divert(&mut nodes);
         nodes.push(Node::Divert(parse_divert(divert_part)?));
     } else {
         nodes.extend(tokenize_inline_content(content)?);
